@@ -106,7 +106,11 @@ def check_route(route, v, scratch):
 
     from vlib.textdump import text_dump_problem
 
-    msg = text_dump_problem(Pickled.load(data), scratch, "-c15")
+    try:
+        parsed = Pickled.load(data)
+    except Exception:  # noqa: BLE001 - what was built does not even parse: reported by the load below
+        parsed = None
+    msg = text_dump_problem(parsed, scratch, "-c15") if parsed is not None else None
     if msg:
         return Failure(case, f"{route}({v!r}): {msg}"), "text-dump"
     try:
